@@ -1005,6 +1005,7 @@ func (c *FCtx) bitOr(st *State, l, r *Term, k intKind, le, re ast.Expr) *Term {
 	st.assumeAbout(res, Implies(Eq(l, Num(0)), Eq(res, r)))
 	st.assumeAbout(res, Implies(Eq(r, Num(0)), Eq(res, l)))
 	st.assumeAbout(res, Implies(And(Ge(l, Num(0)), Ge(r, Num(0))), And(Le(l, res), Le(r, res), Le(res, Add(l, r)))))
+	st.assumeAbout(res, Eq(Eq(res, Num(0)), And(Eq(l, Num(0)), Eq(r, Num(0))))) // x|y == 0 <=> x == 0 && y == 0
 	st.assumeAbout(res, rangeFact(res, k))
 	return res
 }
@@ -1016,6 +1017,7 @@ func (c *FCtx) bitXor(st *State, l, r *Term, k intKind) *Term {
 	res := App("bxor", SInt, l, r)
 	st.assumeAbout(res, Implies(Eq(l, Num(0)), Eq(res, r)))
 	st.assumeAbout(res, Implies(Eq(r, Num(0)), Eq(res, l)))
+	st.assumeAbout(res, Eq(Eq(res, Num(0)), Eq(l, r))) // x^y == 0 <=> x == y
 	st.assumeAbout(res, rangeFact(res, k))
 	return res
 }
